@@ -83,6 +83,7 @@ HCIcrle_init(accrec_t *access_rec)
     rle_info->last_byte   = (unsigned)RLE_NIL; /* start with no code in the last byte */
     rle_info->second_byte = (unsigned)RLE_NIL; /* start with no code here too */
     rle_info->offset      = 0;                 /* offset into the file */
+    rle_info->encoding    = FALSE;             /* nothing buffered by the encoder */
 
     return SUCCEED;
 } /* end HCIcrle_init() */
@@ -183,7 +184,9 @@ HCIcrle_encode(compinfo_t *info, int32 length, const uint8 *buf)
     rle_info = &(info->cinfo.coder_info.rle_info);
 
     orig_length = length; /* save this for later */
-    while (length > 0) {  /* encode until we stored all the bytes */
+    if (length > 0)
+        rle_info->encoding = TRUE; /* the buffer state now belongs to the encoder */
+    while (length > 0) {           /* encode until we stored all the bytes */
         switch (rle_info->rle_state) {
             case RLE_INIT:                      /* initial encoding state */
                 rle_info->rle_state  = RLE_MIX; /* shift to MIX state */
@@ -308,6 +311,7 @@ HCIcrle_term(compinfo_t *info)
     }
     rle_info->rle_state   = RLE_INIT;
     rle_info->second_byte = rle_info->last_byte = (unsigned)RLE_NIL;
+    rle_info->encoding    = FALSE;
 
     return SUCCEED;
 } /* end HCIcrle_term() */
@@ -425,7 +429,8 @@ HCPcrle_seek(accrec_t *access_rec, int32 offset, int origin)
     rle_info = &(info->cinfo.coder_info.rle_info);
 
     if (offset < rle_info->offset) { /* need to seek from the beginning */
-        if ((access_rec->access & DFACC_WRITE) && rle_info->rle_state != RLE_INIT)
+        /* only flush a state the encoder left behind, never the decoder's */
+        if ((access_rec->access & DFACC_WRITE) && rle_info->encoding && rle_info->rle_state != RLE_INIT)
             if (HCIcrle_term(info) == FAIL)
                 HRETURN_ERROR(DFE_CTERM, FAIL);
         if (HCIcrle_init(access_rec) == FAIL)
@@ -581,8 +586,8 @@ HCPcrle_endaccess(accrec_t *access_rec)
     info     = (compinfo_t *)access_rec->special_info;
     rle_info = &(info->cinfo.coder_info.rle_info);
 
-    /* flush out RLE buffer */
-    if ((access_rec->access & DFACC_WRITE) && rle_info->rle_state != RLE_INIT)
+    /* flush out RLE buffer (only if the encoder filled it; after a seek it is the decoder's) */
+    if ((access_rec->access & DFACC_WRITE) && rle_info->encoding && rle_info->rle_state != RLE_INIT)
         if (HCIcrle_term(info) == FAIL)
             HRETURN_ERROR(DFE_CTERM, FAIL);
 
